@@ -681,6 +681,12 @@ func StuckGoroutines(d1, d2 string) []string {
 			}
 			blocked := strings.Contains(head, "[chan send") || strings.Contains(head, "[sync.Mutex.Lock") || strings.Contains(head, "[sync.RWMutex.Lock") ||
 				strings.Contains(head, "[sync.RWMutex.RLock")
+			// a handler that is still running the same hagall function half a
+			// second later is spinning (e.g. a loop over a wrapped-around index range)
+			if (strings.HasPrefix(strings.TrimPrefix(head[strings.Index(head, "["):], "["), "running") || strings.HasPrefix(strings.TrimPrefix(head[strings.Index(head, "["):], "["), "runnable")) &&
+				strings.Contains(g, "websocket.(*handler).handleMessage") {
+				blocked = true
+			}
 			if strings.Contains(head, "[semacquire") && (strings.Contains(g, "sync.(*Mutex).Lock") || strings.Contains(g, "sync.(*RWMutex).")) {
 				blocked = true // a mutex wait on older runtimes; WaitGroup.Wait (idle by design) is not
 			}
